@@ -13,10 +13,10 @@ from vlib import Report, run_tlc, tlc_must_pass, xv_json, read_ndjson, workdir
 
 PID = "C03"
 THEMES = ["bits", "vars", "defs", "cursor", "canvas", "step"]
-LEN = {"quick": {"bits": 4, "vars": 3, "defs": 3, "cursor": 3, "canvas": 4, "step": 3},
+LEN = {"quick": {"bits": 3, "vars": 3, "defs": 3, "cursor": 3, "canvas": 3, "step": 3},
        "thorough": {"bits": 4, "vars": 4, "defs": 4, "cursor": 4, "canvas": 4, "step": 4}}
 RANDOM = {"quick": (400, 14), "thorough": (6000, 20)}
-CFG = "SPECIFICATION Spec\nCONSTANTS\n  Theme = \"%s\"\n  L = %d\nINVARIANT Export\nCHECK_DEADLOCK FALSE\n"
+CFG = "SPECIFICATION Spec\nCONSTANTS\n  Theme = \"%s\"\n  L = %d\n  Pre = \"%s\"\nINVARIANT Export\nCHECK_DEADLOCK FALSE\n"
 
 
 def validate(rep, wd, trace, side, label):
@@ -67,17 +67,19 @@ def run(tier, seed):
     wd = vlib.clean_workdir(PID)
     vlib.build_harness()
     states = trans = runs = events = tstates = 0
-    for th in THEMES:
-        name = f"MC_C03_{th}"
+    # every history of length L after the theme's prelude (storage to share exists from the start), and the bare ones
+    plan = [(th, LEN[tier][th], "on") for th in THEMES] + [(th, LEN[tier][th], "off") for th in THEMES]
+    for th, ln, pre in plan:
+        name = f"MC_C03_{th}_{pre}"
         outf = os.path.join(wd, name + ".out")
-        res = run_tlc("mc/MC_C03", CFG % (th, LEN[tier][th]), wd, name=name, timeout=3000, to_file=outf)
+        res = run_tlc("mc/MC_C03", CFG % (th, ln, pre), wd, name=name, timeout=3000, to_file=outf)
         tlc_must_pass(res, name)
         states += res["distinct"]; trans += res["generated"]
         t, sd = os.path.join(wd, th + ".trace.ndjson"), os.path.join(wd, th + ".side.ndjson")
         s = xv_json(["clone-record", outf, t, sd], timeout=3000)
         os.remove(outf)
         runs += s["runs"]; events += s["events"]
-        ts, rej = validate(rep, wd, t, sd, th)
+        ts, rej = validate(rep, wd, t, sd, th + "_" + pre)
         tstates += ts
     n, ln = RANDOM[tier]
     t, sd = os.path.join(wd, "rand.trace.ndjson"), os.path.join(wd, "rand.side.ndjson")
@@ -90,7 +92,7 @@ def run(tier, seed):
     nrepl = repl_scripts(rep, wd, 20 if tier == "quick" else 70)
     rep.add(states=states, transitions=trans, traces_validated_against_impl=runs + nrepl, evaluations=events + nrepl, distinct_nontrivial=runs, trace_states=tstates,
             repl_scripts=nrepl,
-            rule=f"TLC: all histories of the per-theme length {LEN[tier]} that contain at least one clone (3 instances, clone of clone included); "
+            rule=f"TLC: all histories of the per-theme length {LEN[tier]} after the theme's prelude, and the bare histories, that contain at least one clone (3 instances, clone of clone included); "
                  f"{n} seeded histories of {ln} events over the whole dictionary (the same source is regularly applied to two instances); REPL /snapshot-/rollback scripts")
     rep.assumptions += ["the dump renders shared structure by value (bit-strings as bits, the canvas through d2_plugin::copy_rgba_data), never by address",
                         "sources exclude random, random-bits, read-all, write-all, exec-piped, include/require (the property's own exclusions)"]
